@@ -53,8 +53,11 @@ func seqxRun(sp *seqxSpec, first []EngOp, env *fw.Env, unit string, res *fw.Resu
 				}
 				return
 			}
+			if r.EffectiveCompactions > 0 {
+				res.Count("programs_with_effective_compaction", 1)
+			}
+			key = r.StateKey() // before the oracle: some oracles close or restart the engine
 			problem = sp.Oracle(r, prog)
-			key = r.StateKey()
 		})
 		res.Evaluations++
 		res.Transitions++
